@@ -3,7 +3,8 @@
 //! Case lines (fields separated by one space):
 //!   P <impl> <host> <maxsteps> <cp>,<cp>,...       program: source text as hex code points ("-" = empty)
 //!   O <impl> <host> <Instruction>[:<data>] <v|-> <v|->   one runtime step on directly constructed operands
-//!   X <fn> ...                                     index arithmetic observed through the public getters
+//!   X <fn> <impl> ...                              index arithmetic observed through the public getters
+//!        usize | item | iter | access | raccess | cast | range | lenof  (see run_x)
 //!                                                  (model correspondence, see ocaml/idx_driver.ml)
 //!   impl  S = SimpleGarnishData, B = BasicGarnishData
 //!   host  A = absent (default handlers / NoOpCompanion), D = declining, Y = accepting
@@ -752,6 +753,31 @@ fn show_list_value<D: Host>(d: &D, a: usize) -> String {
 fn run_x<D: Host>(mut d: D, p: &[&str]) -> (String, String) {
     let r = panic::catch_unwind(panic::AssertUnwindSafe(|| -> Result<String, DataError> {
         match p[0] {
+            // X usize <impl> <num>: From<SimpleNumber> for usize
+            "usize" => {
+                let n = parse_num(p[1]).expect("num");
+                Ok(format!("Ok {:x}", usize::from(n)))
+            }
+            // X raccess <impl> <start num> <end num> <index num>: the Access instruction on a range
+            "raccess" => {
+                let s0 = d.add_number(parse_num(p[1]).expect("num"))?;
+                let e0 = d.add_number(parse_num(p[2]).expect("num"))?;
+                let r = d.add_range(s0, e0)?;
+                let i = d.add_number(parse_num(p[3]).expect("num"))?;
+                d.push_register(r)?;
+                d.push_register(i)?;
+                d.push_instruction(Instruction::Access, None)?;
+                d.push_instruction(Instruction::Invalid, None)?;
+                d.set_instruction_cursor(0)?;
+                match execute_current_instruction(&mut d) {
+                    Err(_) => Ok("Err".to_string()),
+                    Ok(_) => {
+                        let n = d.get_register_len();
+                        let top = d.get_register(n - 1).expect("top");
+                        Ok(format!("Ok {}", show_item(&d, top)))
+                    }
+                }
+            }
             // X item <impl> <kind> <len> <num>: the get_*_item getters
             "item" => {
                 let len: usize = p[2].parse().unwrap_or(0);
@@ -929,7 +955,10 @@ fn dispatch(imp: &str, host: &str, job: Job) -> (String, String) {
 }
 
 fn main() {
-    supervised(20000, |line| {
+    // per-case deadline of the supervisor (HANG); the check lowers it for the run over cases whose only
+    // question is resource exhaustion
+    let deadline_ms: u64 = std::env::var("NOPANIC_DEADLINE_MS").ok().and_then(|v| v.parse().ok()).unwrap_or(20000);
+    supervised(deadline_ms, |line| {
         install_hook();
         let p: Vec<&str> = line.split(' ').collect();
         let (class, detail) = match p.first().copied() {
